@@ -18,6 +18,13 @@
 (* What-if switches (must be rejected): ReuseKeys (restart keeps the id), NoReinit (run   *)
 (* does not reset retries), NoRekey (restart_workers leaves a worker under its old id),   *)
 (* EarlyFlag (_close sets _pool_closed before the clean-up instead of at its very end).   *)
+(* StickyGuard (a BaseException raised inside run leaves _map_guard set: the code resets   *)
+(* it in a finally clause), EarlyUnreg (restart_workers drops a worker's registry entry    *)
+(* before restarting it instead of after).                                                 *)
+(* "runint": run() left through a BaseException raised while it executes (KeyboardInterrupt *)
+(* from the worker_callback); the with-block is then left: only close / terminate / exc    *)
+(* follow.  "restartg": restart_workers(timeout, force=False) - a worker stuck in an        *)
+(* uncooperative target cannot be stopped, RuntimeError('Could not stop a worker!').        *)
 (* "closeint" / "termint": a close / terminate (with-exit) that is cut short by an         *)
 (* exception raised in the closing thread while it joins the clean-up threads              *)
 (* (KeyboardInterrupt, a signal handler raising): the bare except raises SystemExit in     *)
@@ -25,7 +32,7 @@
 (* at the very end of _close), so a later close()/terminate() does the clean-up again.     *)
 EXTENDS Naturals, Sequences, FiniteSets, TLC, PoolLifeProps
 
-CONSTANTS Fix, MaxOps, MaxW, Kinds, Plans, Free, ReuseKeys, NoReinit, NoRekey, EarlyFlag, Hist
+CONSTANTS Fix, MaxOps, MaxW, Kinds, Plans, Free, ReuseKeys, NoReinit, NoRekey, EarlyFlag, StickyGuard, EarlyUnreg, Hist
 
 VARIABLES plan,       \* scenario: [id, force ("none" | "false"), ops]; ops is followed when Free = FALSE
           ws,         \* workers ever created: sequence of [kind, os, stuck, key, owned]
@@ -64,7 +71,11 @@ Done(name, o) ==
    /\ steps' = IF Hist THEN Append(steps, o) ELSE <<o>>
    /\ h' = IF Hist THEN Append(h, name) ELSE h
 Simple(name, op, outcome, wsx, regx) == Done(name, Obs(op, outcome, "F", 0, 0, 0, wsx, regx))
-Idle == pc = "idle" /\ (IF Free THEN nops < MaxOps ELSE Len(h) < Len(plan.ops))
+Budget == IF Free THEN nops < MaxOps ELSE Len(h) < Len(plan.ops)
+Idle == pc = "idle" /\ Budget
+\* pc = "idleInt": at rest after a run that was left through a BaseException (guard reset, as the code does);
+\* pc = "idleGuard": the same with _map_guard left set (StickyGuard).  Only closing calls follow.
+RestPcs == {"idle", "idleInt", "idleGuard"}
 NewW(kind, key, owned) == [kind |-> kind, os |-> "alive", stuck |-> FALSE, key |-> key, regkey |-> key, owned |-> owned]
 
 AddLike(name, op, kind) ==
@@ -91,7 +102,7 @@ AddDup(o) ==                                \* the new worker's id collides with
   /\ UNCHANGED <<plan, closedIds, retries, poolClosed, nextKey, nrun, restarted, pc, todo, graceful>>
 
 \* workers that run() would wait for forever: the harness never calls run then
-Blocking == \E w \in RegW : Alive(w) /\ ws[w].stuck /\ ws[w].key \notin closedIds
+Blocking == ~poolClosed /\ \E w \in RegW : Alive(w) /\ ws[w].stuck /\ ws[w].key \notin closedIds    \* (a closed pool refuses run at once)
 Usable(w) == w \in RegW /\ ws[w].key \notin closedIds          \* run() looks at worker.id, the registry key only matters for results
 Run(poison) ==
   /\ Idle /\ ~Blocking /\ Go(IF poison THEN "runp" ELSE "run")
@@ -118,28 +129,42 @@ Run(poison) ==
                              EXCEPT !.spoiled = IF misfiled /\ ~pz THEN 1 ELSE 0])
   /\ UNCHANGED <<plan, reg, poolClosed, nextKey, pc, todo, graceful>>
 
+RunInt ==                                   \* run() is left through a BaseException raised by the worker_callback at the first result
+  /\ Idle /\ ~Blocking /\ Go("runint")
+  /\ IF poolClosed \/ {w \in W : Usable(w) /\ Alive(w)} = {}
+     THEN /\ Done("runint", Obs("runint", IF poolClosed \/ {w \in W : Usable(w)} # {} THEN "raised" ELSE "ok", "F", 0, 0, 0, ws, reg))
+          /\ closedIds' = IF poolClosed THEN closedIds ELSE closedIds \cup {ws[w].key : w \in {x \in W : Usable(x)}}
+          /\ UNCHANGED <<nrun, restarted, pc>>            \* no result ever arrives: RuntimeError / returns None / PoolError as a plain run
+     ELSE /\ nrun' = nrun + 1 /\ restarted' = {}
+          /\ closedIds' = closedIds \cup {ws[w].key : w \in {x \in W : Usable(x) /\ ~Alive(x)}}
+          /\ pc' = (IF StickyGuard THEN "idleGuard" ELSE "idleInt")       \* pool.py: `finally: self._map_guard = False`
+          /\ Done("runint", Obs("runint", "raised", "F", 0, 0, 0, ws, reg))
+  /\ UNCHANGED <<plan, ws, reg, retries, poolClosed, nextKey, todo, graceful>>
+
 \* restart_workers: every registered worker, in dict order; a stuck thread worker cannot be stopped -> RuntimeError, the rest is skipped
-RECURSIVE RestartAll(_, _, _, _)
-RestartAll(ks, wsx, regx, nk) ==
+RECURSIVE RestartAll(_, _, _, _, _)
+RestartAll(ks, wsx, regx, nk, gentle) ==
   IF ks = <<>> THEN [ws |-> wsx, reg |-> regx, nk |-> nk, ok |-> TRUE, done |-> {}]
   ELSE LET k == Head(ks)
            w == (CHOOSE kw \in regx : kw[1] = k)[2] IN
-       IF wsx[w].kind = "thread" /\ wsx[w].stuck /\ wsx[w].os = "alive"
-       THEN [ws |-> wsx, reg |-> regx, nk |-> nk, ok |-> FALSE, done |-> {}]
+       IF wsx[w].stuck /\ wsx[w].os = "alive" /\ (gentle \/ wsx[w].kind = "thread")      \* 'Could not stop a worker!'
+       THEN [ws |-> wsx, reg |-> IF EarlyUnreg THEN regx \ {<<k, w>>} ELSE regx,          \* the entry is only replaced AFTER a successful restart
+             nk |-> nk, ok |-> FALSE, done |-> {}]
        ELSE LET newk == IF ReuseKeys THEN k ELSE nk
                 r == RestartAll(Tail(ks), [wsx EXCEPT ![w] = [@ EXCEPT !.os = "alive", !.stuck = FALSE, !.key = newk,
                                                                                !.regkey = IF NoRekey THEN @ ELSE newk]],
-                                IF NoRekey THEN regx ELSE (regx \ {<<k, w>>}) \cup {<<newk, w>>}, nk + 1)
+                                IF NoRekey THEN regx ELSE (regx \ {<<k, w>>}) \cup {<<newk, w>>}, nk + 1, gentle)
             IN [r EXCEPT !.done = @ \cup {w}]
 RECURSIVE SortedKeys(_)
 SortedKeys(S) == IF S = {} THEN <<>> ELSE LET m == CHOOSE x \in S : \A y \in S : x <= y IN <<m>> \o SortedKeys(S \ {m})
-Restart ==
-  /\ Idle /\ Go("restart")
-  /\ IF poolClosed THEN UNCHANGED <<ws, reg, nextKey, restarted>> /\ Simple("restart", "restart", "raised", ws, reg)
-     ELSE LET r == RestartAll(SortedKeys(Keys), ws, reg, nextKey) IN
+RestartOp(name, gentle) ==                  \* gentle: restart_workers(timeout, force=False)
+  /\ Idle /\ Go(name)
+  /\ IF poolClosed THEN UNCHANGED <<ws, reg, nextKey, restarted>> /\ Simple(name, name, "raised", ws, reg)
+     ELSE LET r == RestartAll(SortedKeys(Keys), ws, reg, nextKey, gentle) IN
           /\ ws' = r.ws /\ reg' = r.reg /\ nextKey' = r.nk /\ restarted' = restarted \cup r.done
-          /\ Simple("restart", "restart", IF r.ok THEN "ok" ELSE "raised", r.ws, r.reg)
+          /\ Simple(name, name, IF r.ok THEN "ok" ELSE "raised", r.ws, r.reg)
   /\ UNCHANGED <<plan, closedIds, retries, poolClosed, nrun, pc, todo, graceful>>
+Restart == RestartOp("restart", FALSE) \/ RestartOp("restartg", TRUE)
 
 Kill(w) ==                                  \* external SIGKILL (no-op on a dead worker)
   /\ Idle /\ Go("kill:" \o ToString(w)) /\ w \in W /\ IsProc(w) /\ ws[w].owned /\ (Free => Alive(w))
@@ -154,9 +179,12 @@ Stick(w) ==                                 \* the user enqueues a never-ending 
 \* close / terminate / exception in the with-body
 Closing == pc \in {"closing", "closingI"}
 CloseBegin(name) ==
-  /\ Idle /\ Go(name)
+  /\ pc \in RestPcs /\ Budget /\ Go(name)
+  /\ (pc # "idle" => name \in {"close", "terminate", "exc"})
   /\ IF poolClosed
      THEN /\ Done(name, Obs(name, "ok", "T", 0, 0, 0, ws, reg)) /\ UNCHANGED <<pc, todo, graceful, poolClosed>>   \* _close returns at once
+     ELSE IF pc = "idleGuard"
+     THEN /\ Done(name, Obs(name, "raised", "T", 0, 0, 0, ws, reg)) /\ UNCHANGED <<pc, todo, graceful, poolClosed>>  \* RuntimeError('... still processing workload')
      ELSE /\ pc' = (IF name \in {"closeint", "termint"} THEN "closingI" ELSE "closing")
           /\ todo' = RegW /\ graceful' = (name \in {"close", "closeint"})
           /\ poolClosed' = EarlyFlag                      \* the code sets the flag at the END of _close (CloseEnd)
@@ -198,14 +226,14 @@ Interrupt ==
 
 Next == \/ \E k \in Kinds : AddOk(k) \/ Attach(k)
         \/ AddFail \/ (\E o \in W : AddDup(o) \/ Kill(o) \/ Stick(o))
-        \/ Run(FALSE) \/ Run(TRUE) \/ Restart
+        \/ Run(FALSE) \/ Run(TRUE) \/ RunInt \/ Restart
         \/ CloseBegin("close") \/ CloseBegin("terminate") \/ CloseBegin("exc")
         \/ CloseBegin("closeint") \/ CloseBegin("termint")
         \/ (\E w \in W : CleanupWorker(w)) \/ CloseEnd \/ Interrupt
 Spec == Init /\ [][Next]_vars
 
 R0 == [scn |-> [force |-> force], obs |-> [steps |-> steps]]
-AtRest == pc = "idle"
+AtRest == pc \in RestPcs
 TypeOK == /\ \A kw \in reg : kw[2] \in W
           /\ \A k \in Keys : Cardinality({kw \in reg : kw[1] = k}) = 1
           /\ nops <= MaxOps
@@ -222,6 +250,8 @@ W_DupRaised == ~(steps # <<>> /\ steps[Len(steps)].op = "dup")
 W_RunAfterPoison == ~(nrun >= 2 /\ closedIds # {} /\ steps # <<>> /\ steps[Len(steps)].op = "run" /\ steps[Len(steps)].outcome = "ok")
 W_InterruptedStuck == ~(AtRest /\ ~poolClosed /\ steps # <<>> /\ steps[Len(steps)].outcome = "raised" /\ steps[Len(steps)].closing = "T"
                         /\ \E w \in RegW : Alive(w) /\ ws[w].stuck /\ IsProc(w))
+W_RunInterrupted == ~(pc = "idleInt" /\ AliveOwned > 0)
+W_GentleRestartFails == ~(AtRest /\ steps # <<>> /\ steps[Len(steps)].op = "restartg" /\ steps[Len(steps)].outcome = "raised" /\ ~poolClosed)
 W_ForceFalseSurvivor == ~(poolClosed /\ force = "false" /\ AliveOwned > 0)
 
 \* ---- complete histories for replay (Hist = TRUE) ----
